@@ -57,11 +57,38 @@ func init() {
 		// (no-underflow) heights are uint64: `remoteHeight - 1` and the like in the reorg walk-back must be guarded against 0 —
 		// a wrapped "last possibly valid height" makes the revert task ask the source for heights it does not have and give up,
 		// on every retry (defect F28: the source's chain is a single, different block 0).
+		// reviewed exception, identified by role rather than by the function it sits in: `<block number> - 2` handed straight to
+		// revertTask as its bound after a parent mismatch. It wraps only for block 0 or 1, when the local head is block 0 or absent;
+		// the wrapped bound reads "compare every local block with the source", and the source can answer for height 0 (unlike
+		// F28, where the local head is above the source's).
+		exc := map[string]string{}
+		for _, fn := range p.sortedFuncs() {
+			if pkgRelOf(fn) != "sync" || fn.Origin() != nil {
+				continue
+			}
+			for _, bo := range unsignedSubs(fn) {
+				k, isK := constUint(stripConv(bo.Y))
+				if !isK || k != 2 {
+					continue
+				}
+				onlyRevert := false
+				if refs := bo.Referrers(); refs != nil {
+					for _, r := range *refs {
+						if call, ok := r.(ssa.CallInstruction); ok {
+							if cal := call.Common().StaticCallee(); cal != nil && cal.Name() == "revertTask" {
+								onlyRevert = true
+							}
+						}
+					}
+				}
+				if onlyRevert {
+					exc[fmt.Sprintf("%s: %s - %s", qname(fn), shortTerm(bo.X), shortTerm(bo.Y))] = "reviewed: the bound handed to revertTask after a parent mismatch; a wrapped value only occurs for block 0/1 and means 'compare every local block with the source'"
+				}
+			}
+		}
 		c.usubRule("no-underflow", func(fn *ssa.Function) bool {
 			return pkgRelOf(fn) == "sync" && !strings.HasSuffix(p.Pos(fnPos(fn)), "_test.go") && !p.InFixture(fnPos(fn))
-		}, map[string]string{
-			"(*sync.Synchronizer).storeTask: committedBlock.Block.Header.Number - 2": "reviewed: wraps only for block 0 or 1 after a parent mismatch, when the local head is block 0 or absent; the wrapped bound reads 'compare every local block with the source', and the source can answer for height 0 (unlike F28, where the local head is above the source's)",
-		})
+		}, exc)
 
 		// who-stores
 		type who struct {
